@@ -13,6 +13,7 @@ func init() {
 		p := c.P
 		c.Assume("absence of suspicion over all schedules under a latency bound is not decided; this check covers the code-shape conditions without which a healthy, timely peer is suspected (or the health score of a healthy node rises)")
 		hm := c.handlerModels()
+		checkMerge(c, "C04") // a departure / accusation learned by push/pull becomes the right kind of claim (no spurious suspicion)
 
 		// 1. probe traffic is answered inline by the listener, never through the hand-off queue
 		hc := c.MustFunc("Memberlist.handleCommand")
